@@ -141,7 +141,12 @@ class _Message(object):
         source_name = self.source_file or "[prelude]"
         if not self.location.is_synthetic and self.source_file in source_code:
             source_lines = source_code[self.source_file].splitlines()
-            source_line = source_lines[self.location.start.line - 1]
+            if 0 < self.location.start.line <= len(source_lines):
+                source_line = source_lines[self.location.start.line - 1]
+            else:
+                # Tokens synthesized at the end of the input (the final Dedents)
+                # are placed on the line after the last line of the file.
+                source_line = ""
         else:
             source_line = ""
         lines = self.message.splitlines()
